@@ -438,7 +438,13 @@ def case_c14(rep, spec):
         buf = io.BytesIO()
         eqx.tree_serialise_leaves(buf, b)
         buf.seek(0)
-        like = jax.tree_util.tree_map(lambda l: l * 0 + 0.123 if eqx.is_inexact_array(l) else l, zoo.make(spec)["b"])
+        fresh = zoo.make(spec)["b"]
+        if spec.get("src") == "leaf" and spec.get("cls") == "LeakyTanh":
+            # numeric constructor arguments that are leaves are restored from the file: the fresh model may be built with
+            # another max_val (anything derived from it must travel with it)
+            from flowjax.bijections import LeakyTanh
+            fresh = LeakyTanh(float(b.max_val) * 2 + 0.5, tuple(b.shape))
+        like = jax.tree_util.tree_map(lambda l: l * 0 + 0.123 if eqx.is_inexact_array(l) else l, fresh)
         b_ser = eqx.tree_deserialise_leaves(buf, like)
     except Exception as e:  # noqa: BLE001
         rep.violation({**key, "what": "serialisation raises", "error": type(e).__name__}, f"{z['name']}: {type(e).__name__}: {str(e)[:200]}")
